@@ -230,6 +230,7 @@ class Ex:
         self._axiom_keys = set()        # every path, never retracted (kept across guarded scopes)
         self._scopes = []
         self._rec_depth = 0
+        self.rename_map = {}
         self._solver_broken = False
         self._keep = []                 # keeps z3 asts alive whose ids are used as keys
         self.no_ctx = False
@@ -457,6 +458,10 @@ class Ex:
 
     def lookup_name(self, name, node=None):
         fr = self.frame()
+        if self.spec_mode and self.rename_map and name in self.rename_map and fr.lookup(name) is None:
+            # the contract names a local by the name it had when the contract was written; after a pure
+            # rename the local at the same first-binding position is meant
+            name = self.rename_map[name]
         v = fr.lookup(name)
         if v is not None:
             if isinstance(v, VPoison):
@@ -884,6 +889,10 @@ class Ex:
             if v is None:
                 continue
             ty = spec.var_types.get(nm)
+            if ty is None and self.rename_map:
+                for cname, actual in self.rename_map.items():
+                    if actual == nm and cname in spec.var_types:
+                        ty = spec.var_types[cname]
             if isinstance(v, VBox):
                 if id(v) not in done:
                     done.add(id(v))
@@ -1767,6 +1776,66 @@ def _coerce_empty(a, b):
 
 
 _TYPE_NAMES = ("bytes", "str", "int", "tuple", "list", "bool", "dict", "set", "object", "frozenset")
+
+
+def binding_order(fn):
+    """parameters, then local names in order of their first binding occurrence"""
+    out = [a.arg for a in fn.args.posonlyargs + fn.args.args + fn.args.kwonlyargs]
+    seen = set(out)
+
+    def add(t):
+        if isinstance(t, ast.Name):
+            if t.id not in seen:
+                seen.add(t.id)
+                out.append(t.id)
+        elif isinstance(t, (ast.Tuple, ast.List)):
+            for x in t.elts:
+                add(x)
+        elif isinstance(t, ast.Starred):
+            add(t.value)
+
+    class W(ast.NodeVisitor):
+        def visit_FunctionDef(self, n):
+            if n is not fn:
+                if n.name not in seen:
+                    seen.add(n.name)
+                    out.append(n.name)
+                return
+            self.generic_visit(n)
+
+        def visit_Lambda(self, n):
+            pass
+
+        def visit_Assign(self, n):
+            self.visit(n.value)
+            for t in n.targets:
+                add(t)
+
+        def visit_AugAssign(self, n):
+            self.visit(n.value)
+            add(n.target)
+
+        def visit_For(self, n):
+            self.visit(n.iter)
+            add(n.target)
+            for s_ in n.body + n.orelse:
+                self.visit(s_)
+
+        def visit_With(self, n):
+            for it in n.items:
+                self.visit(it.context_expr)
+                if it.optional_vars is not None:
+                    add(it.optional_vars)
+            for s_ in n.body:
+                self.visit(s_)
+
+        def visit_ExceptHandler(self, n):
+            if n.name and n.name not in seen:
+                seen.add(n.name)
+                out.append(n.name)
+            self.generic_visit(n)
+    W().visit(fn)
+    return out
 
 
 def _same_func(a, b):
